@@ -115,11 +115,11 @@ def rnd_edge(rng, eid, src_t, dst_t, src_blocking, src_out_policy, profile, item
     return e
 
 
-def gen_spec(seed, profile="core", variant=None):
+def gen_spec(seed, profile="core", variant=None, templates=None):
     rng = random.Random(seed)
     variant = variant or rng.choice(("plain", "plain", "congested", "starved", "finite", "finite"))
     congested = variant == "congested"
-    template = rng.choice(("line", "line", "line", "diamond", "pack", "packunpack", "multisink", "fanin"))
+    template = rng.choice(templates or ("line", "line", "line", "diamond", "pack", "packunpack", "multisink", "fanin"))
     item_len = rng.choice((1, 1, 0.5))
     nodes, conns = [], []
 
@@ -237,6 +237,8 @@ def gen_spec(seed, profile="core", variant=None):
             n["out_sel"] = rnd_policy(rng, outdeg[n["id"]])
         if n["type"] in ("machine", "splitter"):
             n["in_sel"] = rnd_policy(rng, indeg[n["id"]])
+            if variant == "finite" and indeg[n["id"]] > 1 and rng.random() < 0.7:
+                n["in_sel"] = "FIRST_AVAILABLE"
     edges = []
     k_id = 0
     for a, b, k in conns:
@@ -258,8 +260,10 @@ def gen_spec(seed, profile="core", variant=None):
         if not any(n["type"] == "combiner" for n in nodes):
             rng.shuffle(corder)
     T = rng.choice((17.77, 30, 41.3, 60, 25.5))
+    if rng.random() < 0.08:
+        T = rng.choice((0.1, 0.6, 1.0, 1.3, 2.05))
     if variant == "finite":
-        T = rng.choice((150, 200.5))
+        T = rng.choice((300, 400.5))
     return {"seed": seed, "profile": profile, "variant": variant, "template": template, "nodes": nodes, "edges": edges,
             "construct_order": order, "connect_order": corder, "T": T, "random_seed": rng.randrange(10 ** 6), "item_length": item_len}
 
@@ -351,7 +355,7 @@ def run_case(seed, params=None, spec=None):
     shim.install()
     params = params or {}
     if spec is None or "nodes" not in spec:
-        spec = gen_spec(seed, params.get("profile", "core"), params.get("variant"))
+        spec = gen_spec(seed, params.get("profile", "core"), params.get("variant"), params.get("templates"))
     env = MonEnv()
     mon = Monitor(env)
     from ..oracles import factory
